@@ -40,6 +40,25 @@ func checkC09(c *Ctx) {
 		{Owner: "lib.DecoyTimeout", Field: "status", Mutex: "lib.RegisteredDecoys.m", Foreign: true},
 	}, nil)
 
+	// ---- C09.11 an ingest worker never waits for a peer: the share request (an HTTP POST without timeout or context) is
+	// always started as its own goroutine - a worker only looks at the stop request between messages, so a silent
+	// peer would otherwise keep the pipeline from winding down
+	r.Rule("C09.11", "tryShareRegistrationOverAPI is only ever started as a goroutine", 1)
+	{
+		n := 0
+		for _, f := range c.funcsOfPkgs("pkg/station/lib") {
+			for _, ci := range callsIn(f, shortIs("tryShareRegistrationOverAPI")) {
+				n++
+				_, isGo := ci.(*ssa.Go)
+				r.Check(isGo, "C09.11", fnName(f)+": share over the API in its own goroutine", ci.Pos(), fnName(f), "go statement",
+					"the share request runs on the ingest worker itself: http.Post has no timeout, a peer that accepts the request and does not answer blocks the worker for good, the registration is not validated meanwhile and after a stop request HandleRegUpdates hangs in wg.Wait()")
+			}
+		}
+		if n == 0 {
+			r.Unk("C09.11", "tryShareRegistrationOverAPI call sites", token.NoPos, "", "none found")
+		}
+	}
+
 	// ---- C09.10 a single remover: removeRegistration uses the record it looks up without a found-test, which is only
 	// safe while nothing else can delete records between the sweeper's collection and removal phases
 	r.Rule("C09.10", "records are removed by one sweeper only (or removeRegistration tolerates a record that is already gone)", 1)
